@@ -457,3 +457,40 @@ def check_rmake_rule_words_existing(words, position, workers=16):
             else:
                 bad.append((w, m, real))
     return agree, declined, bad
+
+
+# ------------------------------------------------------------------ pkg-config
+
+def real_pkgconfig_cflags(value):
+    """what `pkg-config --cflags x` prints for `Cflags: <value>` (string) or ('error', msg)"""
+    if not _encodable(value) or '\n' in value or '\r' in value:
+        return ('skip', '')
+    with Scratch() as sc:
+        sc.write('x.pc', 'Name: x\nDescription: x\nVersion: 1\nCflags: ' + value + '\n')
+        r = subprocess.run(['pkg-config', '--cflags', 'x'], capture_output=True, timeout=20,
+                           env={'PKG_CONFIG_PATH': sc.dir, 'PATH': '/usr/bin:/bin',
+                                'PKG_CONFIG_ALLOW_SYSTEM_CFLAGS': '1'})
+        if r.returncode != 0:
+            return ('error', r.stderr.decode(errors='replace')[:120])
+        return r.stdout.decode('utf-8', 'surrogateescape').rstrip('\n')
+
+
+def check_rpc(values, workers=16):
+    from .models import rpc
+    agree = declined = 0
+    bad = []
+
+    def one(v):
+        m = rpc.field('-Dq -D' + v + ' -Dz')
+        if m is None:
+            return v, None, None
+        return v, m, real_pkgconfig_cflags('-Dq -D' + v + ' -Dz')
+    with ThreadPoolExecutor(workers) as ex:
+        for v, m, real in ex.map(one, values):
+            if m is None or (isinstance(real, tuple) and real[0] == 'skip'):
+                declined += 1
+            elif real == m or (isinstance(real, tuple) and real[0] == 'error' and False):
+                agree += 1
+            else:
+                bad.append((v, m, real))
+    return agree, declined, bad
